@@ -21,6 +21,7 @@ from simlib.tape import Tape
 from refs import site as refsite
 from refs.site import canon
 from harness import crawl
+from harness import ftpcrawl
 
 import sqlalchemy
 import sqlalchemy.event
@@ -34,7 +35,7 @@ SHRINK = {'C03': (60, 25), 'C02': (60, 40)}
 WALL_LIMIT = {('C03', 'quick'): 240, ('C03', 'thorough'): 3000, ('C02', 'quick'): 240, ('C02', 'thorough'): 240}      # one re-execution = ~20 forked crawls
 PROBES = {'C03': ['kill_points_total', 'kill_at_sql', 'kill_at_commit', 'kill_at_request', 'kill_at_delivery', 'kill_before_first_request',
                   'kill_with_in_progress_rows', 'kill_between_status_and_children', 'second_kill', 'resumed_runs', 'concurrency>1',
-                  'workload_fully_enumerated', 'run2_refetch_of_in_progress', 'database_uri', 'sitemaps', 'sitemaps_skipped_start']}
+                  'workload_fully_enumerated', 'run2_refetch_of_in_progress', 'database_uri', 'sitemaps', 'sitemaps_skipped_start', 'ftp_crawl']}
 INFO = {'C03': {
     'rule': 'workload = generated site graph (as C01, depth unlimited) x concurrency 1..3 x schedule; per workload the kill instants '
             '(every SQL statement boundary, every commit boundary, every server request, every delivered segment) are enumerated '
@@ -114,6 +115,8 @@ def child_run(tape_values, site, argv, concurrency, sandbox, logpath, resultpath
                 _instant('request')
             h.on_request = on_request
             net.on_delivery = lambda conn, payload: _instant('delivery')
+            if getattr(site, 'ftp_tree', None) is not None:
+                ftpcrawl.FtpTreeServer(h, net, site.ftp_tree, mlsd=site.ftp_mlsd)
         out = crawl.run_app(tape, r, site, argv, concurrency, sandbox, setup=setup, max_callbacks=max_callbacks)
         res = {'exit': out['exit'], 'hang': out.get('hang'), 'exception': out.get('exception'), 'crashed': out['crashed'],
                'instants': _state['count'], 'kinds': _state['kinds'], 'sim_time': r.sim_time, 'callbacks': r.callbacks}
@@ -162,6 +165,17 @@ def snapshot_db(dbpath, dest):
     return crawl.read_rows(os.path.join(dest, os.path.basename(dbpath)))
 
 
+class _Origin:
+    def __init__(self, host):
+        self.host = host
+
+
+class _Start:
+    def __init__(self, url, host):
+        self.url = url
+        self.origin = _Origin(host)
+
+
 def run(tape, prop, tier):
     r = Result()
     base = tempfile.mkdtemp(prefix='wv-crash-%d-' % os.getpid(), dir='/dev/shm')
@@ -173,10 +187,20 @@ def run(tape, prop, tier):
         if tape.chance(1, 4, 'opt.database_uri'):
             opts['database_uri'] = True
             r.probes['database_uri'] += 1
-        nhosts = tape.choice((1, 2), 'site.nhosts')
-        site, starts, pages, assets, redirects = refsite.gen_site(tape, nhosts=nhosts, npages=tape.between(3, 7, 'site.npages'),
-                                                                 with_redirects=tape.chance(1, 3, 'site.redirects'))
-        sitemaps = prop == 'C03' and tape.chance(1, 4, 'opt.sitemaps')
+        ftp = prop == 'C03' and tape.chance(1, 5, 'variant.ftp')
+        if ftp:
+            # a recursive FTP crawl of a generated directory tree (listings are the pages, entries the links)
+            r.probes['ftp_crawl'] += 1
+            site = refsite.Site()
+            site.ftp_tree = ftpcrawl.gen_tree(tape)
+            site.ftp_mlsd = tape.chance(2, 3, 'ftp.mlsd')
+            starts = [_Start('ftp://ftp.test/', 'ftp.test')]
+            pages, assets, redirects = [], [], []
+        else:
+            nhosts = tape.choice((1, 2), 'site.nhosts')
+            site, starts, pages, assets, redirects = refsite.gen_site(tape, nhosts=nhosts, npages=tape.between(3, 7, 'site.npages'),
+                                                                     with_redirects=tape.chance(1, 3, 'site.redirects'))
+        sitemaps = prop == 'C03' and not ftp and tape.chance(1, 4, 'opt.sitemaps')
         if sitemaps:
             # --sitemaps: every start URL queues /robots.txt and /sitemap.xml of its host BEFORE it is fetched; pages that
             # are reachable only through the sitemap, and a start URL that ends 'skipped' (it redirects to a rejected
@@ -219,7 +243,15 @@ def run(tape, prop, tier):
         ksel = [tape.draw(1 << 16, 'kill.sel') for _ in range(8)]
         second_kill = tape.chance(1, 4, 'second_kill')
         own = sorted({s.origin.host for s in starts})
-        if sitemaps:
+        if ftp:
+            # reference: every directory and file of the tree, each the child of its directory
+            ref_rows, expected = {}, []
+            for path in site.ftp_tree:
+                u = 'ftp://ftp.test' + path
+                par = None if path == '/' else 'ftp://ftp.test' + (path.rstrip('/').rsplit('/', 1)[0] + '/')
+                ref_rows[u] = {'parent': {'url': par} if par else None}
+                expected.append(u)
+        elif sitemaps:
             ref_rows, expected = {}, []      # no sitemap model: the uninterrupted run of the same command is the reference (c')
         else:
             ref_rows, expected = crawl.reference_crawl(site, starts, opts, own)
@@ -265,6 +297,9 @@ def run(tape, prop, tier):
         workload = {'options': {k: v for k, v in opts.items() if v not in (None, False, ())}, 'starts': [s.url for s in starts],
                     'concurrency': concurrency, 'instants': N, 'positions': positions if tier != 'thorough' else 'all',
                     'site': [(x.kind, x.url, [d.url for d, _ in x.links], [d.url for d, _, _ in x.inlines]) for x in site.order]}
+        if ftp:
+            workload['ftp_tree'] = sorted((p, v if isinstance(v, list) else len(v)) for p, v in site.ftp_tree.items())
+            workload['ftp_mlsd'] = site.ftp_mlsd
         landed_in_progress = False
         for k in positions:
             sb = sandbox_for('k%d' % k)
@@ -363,7 +398,7 @@ def run(tape, prop, tier):
                     r.violate(P, 'url-lost', 'vs-uninterrupted-run:' + kind, '%s: %s was requested by the uninterrupted run of the same command but by neither run; rows after the kill: %r'
                               % (where, u, [(x['url'], x['status']) for x in rows1][:12]))
             # C02 on the resumed history: scope must not widen after a resume
-            fake_out = {'server': _FakeServer(req_after)}
+            fake_out = {'server': _FakeServer(req_after if not ftp else [])}
             crawl.judge_c02(r, site, starts, opts, fake_out, final_rows, own_hosts=own, phase=' [resumed run after %s]' % where)
             # refetch of a URL that was in progress at the kill is allowed (and expected): count it
             if any(canon(e['url']) in {canon(x['url']) for x in inprog1} for e in req_after):
